@@ -81,6 +81,7 @@ type Explorer struct {
 	knownSeen     map[string]*Cex
 	reach         map[string]int
 	reachSample   map[string][]CexValue
+	reachCex      map[string]*Cex // the full witness (values, literal table, lengths): replayed natively for replayable harnesses
 	engineErrs    []string
 	unwinds       []string
 	unknowns      []string
@@ -104,7 +105,7 @@ type Explorer struct {
 
 func NewExplorer(prog *ssa.Program, entry *ssa.Function, cfg *Config) *Explorer {
 	ex := &Explorer{prog: prog, entry: entry, cfg: cfg,
-		obs: map[string]*ObStat{}, knownSeen: map[string]*Cex{}, reach: map[string]int{}, reachSample: map[string][]CexValue{},
+		obs: map[string]*ObStat{}, knownSeen: map[string]*Cex{}, reach: map[string]int{}, reachSample: map[string][]CexValue{}, reachCex: map[string]*Cex{},
 		funcs: map[string]int{}, modelsUsed: map[string]int{}, overridesUsed: map[string]int{}, autoUsed: map[string]int{}, panicsSeen: map[string]int{}, forkSites: map[string]int{},
 		globals: map[*ssa.Global]Ptr{}, inited: map[*ssa.Package]bool{}}
 	ex.cond = sync.NewCond(&ex.mu)
